@@ -803,7 +803,7 @@ func (s *TO2Server) ovNextEntry(ctx context.Context, msg io.Reader) (*ovEntry, e
 	}
 
 	// Return entry
-	if len(ov.Entries) < nextEntry.OVEntryNum {
+	if nextEntry.OVEntryNum < 0 || len(ov.Entries) <= nextEntry.OVEntryNum {
 		return nil, fmt.Errorf("invalid ownership voucher entry index %d", nextEntry.OVEntryNum)
 	}
 	return &ovEntry{
@@ -863,6 +863,10 @@ func proveDevice(ctx context.Context, transport Transport, proveDeviceNonce prot
 		if err := cbor.NewDecoder(resp).Decode(&setupDevice); err != nil {
 			captureErr(ctx, protocol.MessageBodyErrCode, "")
 			return protocol.Nonce{}, nil, fmt.Errorf("error parsing TO2.SetupDevice contents: %w", err)
+		}
+		if setupDevice.Payload == nil {
+			captureErr(ctx, protocol.MessageBodyErrCode, "")
+			return protocol.Nonce{}, nil, fmt.Errorf("TO2.SetupDevice has no payload")
 		}
 		if setupDevice.Payload.Val.NonceTO2SetupDv != setupDeviceNonce {
 			captureErr(ctx, protocol.InvalidMessageErrCode, "")
